@@ -396,10 +396,15 @@ Relay(r) ==
   /\ Active(r) /\ dead[r] = "no" /\ istate[r] # "sent"
   /\ bprog[r] >= 2 /\ cprog[r] < bprog[r]
   /\ IF "InterimOnH2BackendAborts" \in Deviations /\ sc.back = "h2" /\ rq[r].interim # "none" /\ link[r] = "B1"
-       THEN \* (open finding) the final HEADERS of an h2c backend that follow a 1xx HEADERS are refused: stream aborted
+       THEN \* (open finding) the final HEADERS of an h2c backend that follow a 1xx HEADERS are refused: the stream is
+            \* aborted and the backend connection goes down with it (a connection error): the other streams on it
+            \* lose their backend
             /\ Abort(r)
             /\ fclock' = 0
-            /\ UNCHANGED <<cprog, answer, bclock, pool, fconn>>
+            /\ dead' = [q \in Reqs |-> IF q \in Victims(r) \ {r} THEN "close" ELSE dead[q]]
+            /\ hit' = [q \in Reqs |-> IF q \in Victims(r) \ {r} /\ cprog[q] = 0 /\ answer[q] = "none" THEN "early" ELSE hit[q]]
+            /\ pool' = [pool EXCEPT ![link[r]] = "none"]
+            /\ UNCHANGED <<cprog, answer, bclock, fconn>>
        ELSE /\ cprog' = [cprog EXCEPT ![r] = bprog[r]]
             /\ answer' = [answer EXCEPT ![r] = "200"]
             /\ bclock' = [bclock EXCEPT ![r] = 0]
@@ -411,7 +416,8 @@ Relay(r) ==
                  ELSE /\ phase' = [phase EXCEPT ![r] = "respStarted"]
                       /\ cause' = [cause EXCEPT ![r] = "backend"]
                       /\ UNCHANGED <<pool, fconn, link>>
-  /\ UNCHANGED <<sc, rq, attempts, tried, bprog, fdone, stalled, dead, hit, wait, elapsed, iv, rv>>
+            /\ UNCHANGED <<dead, hit>>
+  /\ UNCHANGED <<sc, rq, attempts, tried, bprog, fdone, stalled, wait, elapsed, iv, rv>>
 
 \* the backend side of r is gone: shared.rs end_stream_decision on what sozu has parsed (view)
 EndStream(r) ==
